@@ -26,7 +26,7 @@ func genC15(seed uint64, tier string, idx int) *Plan {
 		if tier == "thorough" && g.r.chance(10) {
 			cm = 20000
 		}
-		g.genUpload(ci, attOpts{maxFiles: 4, maxChunks: 5, chunkMax: cm, dups: g.r.chance(50), markerPct: 15, withhold: g.r.chance(25), grouped: g.r.chance(35), second: g.r.chance(12)})
+		g.genUpload(ci, attOpts{maxFiles: 4, maxChunks: 5, chunkMax: cm, dups: g.r.chance(50), markerPct: 15, withhold: g.r.chance(25), grouped: g.r.chance(35), second: g.r.chance(12), again1211: true})
 	}
 	p.Sched = g.sched()
 	p.MaxStep = 200000
